@@ -41,6 +41,9 @@ pub struct Closed {
 #[derive(Debug, Clone, Serialize, Deserialize)]
 pub struct DirectCase {
     pub positions: Vec<Closed>,
+    /// the generator is reset (a new session starts) before the position with this index
+    #[serde(default)]
+    pub reset_before: Option<u8>,
 }
 
 fn exited<K: Clone>(instrument: K, c: &Closed, t_ms: i64, n: usize) -> PositionExited<QuoteAsset, K> {
@@ -158,7 +161,8 @@ impl Check for TearSheetDirect {
             1 => prop::collection::vec(closed().prop_map(|mut c| { c.pnl_c = c.pnl_c.abs(); c }), 1..8),
             1 => prop::collection::vec(closed().prop_map(|mut c| { c.pnl_c = -c.pnl_c.abs() - 1; c }), 1..8),
         ]
-        .prop_map(|positions| DirectCase { positions })
+        .prop_flat_map(|positions| (Just(positions), prop::option::weighted(0.25, 0u8..30)))
+        .prop_map(|(positions, reset_before)| DirectCase { positions, reset_before })
         .boxed()
     }
 
@@ -173,8 +177,20 @@ impl Check for TearSheetDirect {
             rep.fail(sig, format!("before any position: {msg}"));
             return rep;
         }
+        let reset_at = case.reset_before.map(|r| r as usize % case.positions.len().max(1));
         for (n, c) in case.positions.iter().enumerate() {
             t += 1 + c.dt as i64;
+            if reset_at == Some(n) && n > 0 {
+                // a new session: everything summarised so far is forgotten
+                generator.reset(ts(t));
+                fed.clear();
+                let sheet = generator.clone().generate(Decimal::new(5, 2), Daily);
+                if let Err((sig, msg)) = compare("direct", &sheet, &expected_of::<u8>(&[])) {
+                    rep.fail(format!("{sig}-after-reset"), format!("straight after reset() following {n} closed positions {:?}: {msg}", &case.positions[..n]));
+                    return rep;
+                }
+                rep.class("generator_reset_mid_history");
+            }
             let p = exited(0u8, c, t, n);
             generator.update_from_position(&p);
             fed.push(p);
@@ -339,7 +355,7 @@ impl Check for TradingSummaryCheck {
 }
 
 pub fn run(ctx: &mut Ctx) {
-    ctx.rule = "tear_sheet_direct: 0..25|60 closed positions (wins, losses, break-even; entry 0.25..1000, max quantity 0.1..9.9), generate() checked after every position; plus all-win and all-loss sequences. trading_summary: 1..3 exchanges / 2..6 instruments, vec(event,0..40|90) of fills (sizes 0.5/1/2 so closes and flips are frequent, fees incl. zero), balance updates and market data through Engine::process, then Engine::trading_summary_generator(0.05).generate(Daily); a second TradingSummaryGenerator taken before the run and fed with every PositionExit output / balance snapshot (update_from_position / update_from_balance) must report the same; one fill in six carries an earlier exchange time than the previous event. non-trivial = >= 3 closed positions with >= 1 win and >= 1 loss (summary check: on >= 2 instruments); distinct by hash of the case.".into();
+    ctx.rule = "tear_sheet_direct: 0..25|60 closed positions (wins, losses, break-even; entry 0.25..1000, max quantity 0.1..9.9), generate() checked after every position; in a quarter of the cases reset() is called mid-history (the sheet then describes the positions since); plus all-win and all-loss sequences. trading_summary: 1..3 exchanges / 2..6 instruments, vec(event,0..40|90) of fills (sizes 0.5/1/2 so closes and flips are frequent, fees incl. zero), balance updates and market data through Engine::process, then Engine::trading_summary_generator(0.05).generate(Daily); a second TradingSummaryGenerator taken before the run and fed with every PositionExit output / balance snapshot (update_from_position / update_from_balance) must report the same; one fill in six carries an earlier exchange time than the previous event. non-trivial = >= 3 closed positions with >= 1 win and >= 1 loss (summary check: on >= 2 instruments); distinct by hash of the case.".into();
     ctx.assumptions = vec![
         "return of a closed position = realised PnL / (average entry x maximum quantity) as documented; a return of exactly zero counts as not negative".into(),
         "one generate() per generator clone; balance timestamps in the summary check are increasing".into(),
